@@ -117,7 +117,7 @@ def impl_eval(case):
         x = 0
         for p in parts:
             x ^= int(p, 16)
-        clear = f'{x:032x}'
+        clear = f'{x:0{max([32] + [len(p) for p in parts])}x}'
         kcv = refdes.tdes_ecb(b'\x00' * 16, binascii.unhexlify(clear)).hex()[:6]
         if st != 'ok':
             why = f'get_zone_master_key raised {st}'
@@ -131,7 +131,7 @@ def impl_eval(case):
         x = 0
         for p in parts:
             x ^= int(p, 16)
-        clear = f'{x:032x}'
+        clear = f'{x:0{max([32] + [len(p) for p in parts])}x}'
         enc = refdes.tdes_ecb(binascii.unhexlify(clear), binascii.unhexlify(mk)).hex()
         kcv = refdes.tdes_ecb(b'\x00' * 16, binascii.unhexlify(clear)).hex()[:6]
         if st != 'ok' or out != (enc, kcv):
@@ -217,7 +217,8 @@ def explore(run, tier):
         cases.append({'k': 'pvv', 'pin': pin, 'pan': pan, 'idx': idx, 'key': key, 'via': 'mixin-reuse', 'before': before})
     for _ in range(500 if tier == 'quick' else 10000):
         n = rng.randrange(1, 5)
-        parts = [rkey(16) for _ in range(n)]
+        klen = rng.choice([16, 16, 24])          # double- and triple-length key components
+        parts = [rkey(klen) for _ in range(n)]
         if rng.random() < 0.3 and n >= 2:
             parts[-1] = parts[0]                  # a component given twice cancels
         cases.append({'k': 'zmk', 'parts': parts})
